@@ -165,7 +165,7 @@ def discovery_bookkeeping(ctx, rep, rule):
             for c in ast.walk(t):
                 if isinstance(c, ast.Compare) and "reps" in ast.unparse(c) and not isinstance(c.ops[0], ast.NotEq):
                     bad = t
-                if isinstance(c, ast.Compare) and "open_at_entry" in ast.unparse(c) and not isinstance(c.ops[0], ast.IsNot):
+                if isinstance(c, ast.Compare) and "open_at_entry" in ast.unparse(c) and "current" in ast.unparse(c) and not isinstance(c.ops[0], ast.IsNot):
                     bad = t
                 if isinstance(c, ast.Compare) and "count" in _names(c) and not isinstance(c.ops[0], ast.NotEq):
                     bad = t
@@ -1302,7 +1302,8 @@ def wraparound_test(ctx, rep, rule):
     for r in ast.walk(vb.node):
         if isinstance(r, ast.Raise):
             for t, taken in _enclosing_ifs(vb.node, r):
-                if taken and "had_started" in ast.unparse(t):
+                # (the refusal about what was measured or completed in the body, not the one about gates put into a superseded trace)
+                if taken and "had_started" in ast.unparse(t) and (".end" in ast.unparse(t) or "len(" in ast.unparse(t)):
                     hit = t
     if hit is None:
         rep.undecided(rule, cons, "no refusal depending on had_started", vb.loc())
@@ -1482,11 +1483,21 @@ def discovery_more(ctx, rep, rule):
     tl = _method(ix, TV, "visit_LoopStatement")
     rep.rule(rule, "discovery keeps both loop-body refusals, refuses a measure gate without an open trace, drops exactly the trace that is still open at the end; the walker skips a loop exactly when its count is <= 0 and reads only fields a Trace has", floor=5)
     cons = construct_of(vb, "both-refusals")
-    n = sum(1 for r in ast.walk(vb.node) if isinstance(r, ast.Raise) and any("reps" in ast.unparse(t) for t, _ in _enclosing_ifs(vb.node, r)))
+    kinds = set()
+    for r in ast.walk(vb.node):
+        if isinstance(r, ast.Raise):
+            src = " ".join(ast.unparse(t) for t, _ in _enclosing_ifs(vb.node, r))
+            if "reps" not in src:
+                continue
+            if "had_started" in src and (".end" in src or "len(" in src):
+                kinds.add("measured-in-body")
+            elif "is not None" in src and "open_at_entry" in src and "had_started" not in src:
+                kinds.add("left-open")
+    n = len(kinds)
     if n >= 2:
-        rep.ok(rule, cons, f"{n} refusals depend on the repetition count", vb.loc())
+        rep.ok(rule, cons, "a trace measured in, and a trace left open by, a body that does not run exactly once are both refused", vb.loc())
     else:
-        rep.violation(rule, cons, f"only {n} refusal(s) depend on the repetition count: either a trace closed and reopened inside a repeated body, or one left open at its end, is accepted and yields the wrong number of readouts", vb.loc())
+        rep.violation(rule, cons, f"of the two refusals for bodies that do not run exactly once only {sorted(kinds) or 'none'} exists: either a trace closed and reopened inside a repeated body, or one left open at its end, is accepted and yields the wrong number of readouts", vb.loc())
     cons = construct_of(vg, "measure-needs-open-trace")
     closing = [st for st in ast.walk(vg.node) if isinstance(st, ast.If) and "m_gate" in ast.unparse(st.test)]
     if closing:
@@ -1741,3 +1752,124 @@ def zero_step_unconditional(ctx, rep, rule):
 
 EXTRA["C14"].append((zero_step_unconditional, "C14.16"))
 EXTRA["C01"].append((zero_step_unconditional, "C01.16"))
+
+
+# ---------------------------------------------------------------- after seed round 8 / the C12 hunt
+
+def superseded_gates_refused(ctx, rep, rule):
+    ix = ctx.ix
+    DS = "jaqalpaq.core.algorithm.walkers.DiscoverSubcircuits"
+    vb = _method(ix, DS, "visit_BlockStatement")
+    vg = _method(ix, DS, "visit_GateStatement")
+    rep.rule(rule, "a body that does not run exactly once may supersede the trace open at its entry only if it put no gate into it: discovery counts the gates of a trace, and refuses when the entry trace is no longer current and its count changed in the body", floor=1)
+    cons = construct_of(vb, "superseded-after-gates")
+    accepts_superseded = any("open_at_entry" in ast.unparse(t) and ".end" in ast.unparse(t) for r in ast.walk(vb.node) if isinstance(r, ast.Raise) for t, taken in _enclosing_ifs(vb.node, r) if taken)
+    if not accepts_superseded:
+        rep.ok(rule, cons, "a superseded entry trace is not accepted at all (any trace completed in the body is refused)", vb.loc())
+        return
+    counted = [a for a in ast.walk(vg.node) if isinstance(a, ast.AugAssign) and isinstance(a.target, ast.Attribute) and isinstance(a.op, ast.Add)]
+    field = counted[0].target.attr if counted else None
+    guard = None
+    for r in ast.walk(vb.node):
+        if isinstance(r, ast.Raise):
+            tests = [t for t, taken in _enclosing_ifs(vb.node, r) if taken]
+            src = " ".join(ast.unparse(t) for t in tests)
+            if field and f".{field}" in src and "open_at_entry" in src and "reps" in src:
+                guard = tests
+    if field is None:
+        rep.violation(rule, cons, "the wrap-around refusal lets a superseded entry trace pass, and nothing counts the gates that went into it: `prepare_all; loop 2 { Px q[0]; prepare_all; measure_all }` is accepted, and on the second pass Px follows a measure_all and is silently dropped", vb.loc(), witness="prepare_all\nloop 2 { Px q[0]; prepare_all; measure_all }")
+    elif guard is None:
+        rep.violation(rule, cons, f"gates are counted (`.{field}`) but no refusal compares the count of the entry trace before and after the body", vb.loc())
+    else:
+        src = " ".join(ast.unparse(t) for t in guard)
+        ok = ("is not open_at_entry" in src or "open_at_entry is not" in src) and "!=" in src and "reps != 1" in src.replace("(", "").replace(")", "")
+        if ok:
+            rep.ok(rule, cons, f"refused when the entry trace is superseded and its `.{field}` changed", f"{vb.path}:{guard[0].lineno}")
+        else:
+            rep.violation(rule, cons, f"`{src[:100]}` does not have the sense `reps != 1 and current is not entry trace and count changed`", f"{vb.path}:{guard[0].lineno}")
+
+
+def trailing_trace_test(ctx, rep, rule):
+    ix = ctx.ix
+    dc = _method(ix, "jaqalpaq.core.algorithm.walkers.DiscoverSubcircuits", "visit_Circuit")
+    rep.rule(rule, "the last discovered trace is left out only under a test of its own end (`end is None`); nothing else -- such as a prepare_all still open when the circuit ends -- removes a completed subcircuit", floor=1)
+    cons = construct_of(dc, "last-trace-left-out")
+    drops = [r for r in ast.walk(dc.node) if isinstance(r, ast.Return) and isinstance(r.value, ast.Subscript) and isinstance(r.value.slice, ast.Slice) and r.value.slice.upper is not None]
+    if not drops:
+        rep.ok(rule, cons, "the list of traces is returned whole", dc.loc())
+        return
+    for r in drops:
+        tests = [t for t, taken in _enclosing_ifs(dc.node, r) if taken]
+        if tests and all(".end" in ast.unparse(t) for t in tests):
+            rep.ok(rule, cons, f"`{ast.unparse(tests[0])}`", f"{dc.path}:{r.lineno}")
+        else:
+            rep.violation(rule, cons, f"`{ast.unparse(r)}` under `{ast.unparse(tests[0]) if tests else 'no test'}` drops the last COMPLETED subcircuit: `prepare_all; Px q[0]; measure_all; prepare_all` (a trailing unmatched prepare_all) yields no subcircuit instead of one", f"{dc.path}:{r.lineno}", witness="prepare_all\nPx q[0]\nmeasure_all\nprepare_all")
+
+
+def prepare_opens_new_trace(ctx, rep, rule):
+    ix = ctx.ix
+    vg = _method(ix, "jaqalpaq.core.algorithm.walkers.DiscoverSubcircuits", "visit_GateStatement")
+    rep.rule(rule, "every prepare gate opens a NEW trace object (the loop-body refusals tell traces apart by identity and by the end of the object that was open at entry)", floor=1)
+    cons = construct_of(vg, "new-trace")
+    opening = [st for st in iter_stmts(vg.body) if isinstance(st, ast.If) and "p_gate" in ast.unparse(st.test)]
+    if not opening:
+        rep.undecided(rule, cons, "opening branch not recognised", vg.loc())
+        return
+    body = opening[0].body
+    direct = [a for a in body if isinstance(a, ast.Assign) and any(isinstance(t, ast.Attribute) and t.attr == "current" for t in ast.walk(a.targets[0]) ) or (isinstance(a, ast.Assign) and any(isinstance(t, ast.Attribute) and t.attr == "current" for tt in a.targets for t in ast.walk(tt)))]
+    fresh = [a for a in direct if isinstance(a.value, ast.Call) and isinstance(a.value.func, ast.Name) and a.value.func.id == "Trace"]
+    conditional = [i for i in body if isinstance(i, ast.If) and "current" in ast.unparse(i.test)]
+    if fresh and not conditional:
+        rep.ok(rule, cons, "`self.current = Trace(...)` unconditionally", f"{vg.path}:{fresh[0].lineno}")
+    else:
+        rep.violation(rule, cons, "a prepare gate met while a trace is open re-uses that trace object (moving its start) instead of opening a new one: the trace that was open at a loop's entry is then `measured in the body`, so `prepare_all; loop 2 { prepare_all; Px q[0]; measure_all }` is refused and `prepare_all; loop 2 { prepare_all }; measure_all` accepted", f"{vg.path}:{opening[0].lineno}")
+
+
+def number_token_covers_reference(ctx, rep, rule):
+    from ..lexer import extract_lexer
+    from ..regex import lang, Unsupported
+    ix = ctx.ix
+    rep.rule(rule, "the NUMBER and INT token languages contain the number forms of the Jaqal language ([-+]?[0-9]*\\.[0-9]+([eE][-+]?[0-9]+)? and [-+]?[0-9]+): a sign, digits before the point and an exponent are each optional and independent", floor=2)
+    lx = extract_lexer(ix)
+    for tok, ref in (("NUMBER", r"[-+]?[0-9]*\.[0-9]+([eE][-+]?[0-9]+)?"), ("INT", r"[-+]?[0-9]+")):
+        r = lx.rule(tok)
+        cons = f"parser.slyparse:JaqalLexer:{tok}:reference-forms"
+        if r is None:
+            raise AnalysisError(f"{rule}: lexer has no {tok} rule")
+        try:
+            have, want = lang(r.pattern), lang(ref)
+        except Unsupported as ex:
+            rep.undecided(rule, cons, f"pattern not supported by the regular-language toolkit: {ex}")
+            continue
+        w = want.included_in(have)
+        if w is True or w is None:
+            rep.ok(rule, cons, f"L(reference) is included in L({tok})")
+        else:
+            rep.violation(rule, cons, f"{w!r} is a number of the Jaqal language that {tok} (`{r.pattern}`) does not match as one token: the text front end refuses (or splits) it while the builder and Q-syntax take the same value", witness=str(w))
+
+
+def idle_twin_has_no_unitary(ctx, rep, rule):
+    ix = ctx.ix
+    f = _func(ix, "jaqalpaq.core.stretch.stretched_gates")
+    rep.rule(rule, "the stretched twin of an idle gate is made as an IdleGateDefinition of the stretched parent (no unitary of its own), not as a copy that is handed the parent's unitary", floor=1)
+    cons = construct_of(f, "idle-twin-construction")
+    made_idle = [c for c in ast.walk(f.node) if isinstance(c, ast.Call) and isinstance(c.func, ast.Name) and c.func.id == "IdleGateDefinition"]
+    copies = [c for c in ast.walk(f.node) if isinstance(c, ast.Call) and isinstance(c.func, ast.Attribute) and c.func.attr == "copy" and (any(k.arg == "ideal_unitary" or k.arg is None for k in c.keywords))]
+    # a copy with a unitary is fine for the active gate; it must not be applied to the idle input
+    idle_names = {t.id for a in ast.walk(f.node) if isinstance(a, ast.Assign) for t in ast.walk(a.targets[0]) if isinstance(t, ast.Name) and "idle" in t.id.lower() and not isinstance(a.value, ast.Constant)}
+    bad = [c for c in copies if isinstance(c.func.value, ast.Name) and c.func.value.id in idle_names]
+    if bad:
+        rep.violation(rule, cons, f"`{ast.unparse(bad[0])[:70]}` copies the idle gate and hands it the stretched parent's unitary, which hides IdleGateDefinition's class-level None: `I_Rx_stretched q[0] 1.1 2.0` rotates the qubit", f"{f.path}:{bad[0].lineno}")
+    elif made_idle:
+        rep.ok(rule, cons, "IdleGateDefinition(<stretched parent>, ..)", f"{f.path}:{made_idle[0].lineno}")
+    else:
+        rep.undecided(rule, cons, "construction of the idle twin not recognised", f.loc())
+
+
+EXTRA["C12X"] = []
+EXTRA["C08"].append((superseded_gates_refused, "C08.17"))
+EXTRA["C08"].append((trailing_trace_test, "C08.18"))
+EXTRA["C08"].append((prepare_opens_new_trace, "C08.19"))
+EXTRA["C02"].append((number_token_covers_reference, "C02.13"))
+EXTRA["C17"].append((number_token_covers_reference, "C17.10"))
+EXTRA["C18"].append((idle_twin_has_no_unitary, "C18.18"))
